@@ -107,12 +107,19 @@ func execJSONOut(s *Sexp) string {
 		var outs []string
 		sharedOut.Reset()
 		for _, batch := range s.List[1:] {
-			for _, c := range batch.List {
+			calls := batch.List
+			abandon := batch.head() == "abandon"
+			if abandon {
+				calls = calls[1:]
+			}
+			for _, c := range calls {
 				if err := applyCall(&sharedOut, c); err != nil {
 					return "bad-op " + err.Error()
 				}
 			}
-			outs = append(outs, hx(append([]byte(nil), sharedOut.Done()...)))
+			if !abandon {
+				outs = append(outs, hx(append([]byte(nil), sharedOut.Done()...)))
+			}
 			sharedOut.Reset()
 		}
 		return strings.Join(outs, " ")
@@ -199,6 +206,15 @@ var jsonStrings = [][]byte{
 }
 
 func (g *Gen) jsonStr() []byte {
+	if g.r.P(6) {
+		// around the 1-byte / 2-byte length prefix boundary
+		n := []int{120, 124, 125, 126, 127, 128, 129, 300}[g.r.Intn(8)]
+		b := make([]byte, n)
+		for i := range b {
+			b[i] = byte('a' + i%26)
+		}
+		return b
+	}
 	if g.r.P(60) {
 		return jsonStrings[g.r.Intn(len(jsonStrings))]
 	}
@@ -290,6 +306,12 @@ func runC15(r *Runner, g *Gen, tier string) string {
 		for b := 1 + g.r.Intn(2); b > 0; b-- {
 			var calls []*Sexp
 			g.jsonTree(1+g.r.Intn(5), &calls)
+			if g.r.P(20) && len(calls) > 1 {
+				// a half-written document abandoned with Reset(): a proper prefix of a call tree
+				cut := 1 + g.r.Intn(len(calls)-1)
+				batches = append(batches, L(append([]*Sexp{A("abandon")}, calls[:cut]...)...))
+				g.count("jsonout.abandoned")
+			}
 			batches = append(batches, L(calls...))
 		}
 		op := L(batches...)
@@ -374,10 +396,16 @@ func callTreeValue(calls []*Sexp, pos *int) (interface{}, bool) {
 func oracleJSONOut(op *Sexp, res string) []string {
 	var fails []string
 	outs := strings.Fields(res)
-	if len(outs) != len(op.List)-1 {
+	var full []*Sexp
+	for _, b := range op.List[1:] {
+		if b.head() != "abandon" {
+			full = append(full, b)
+		}
+	}
+	if len(outs) != len(full) {
 		return []string{"wrong number of outputs: " + res}
 	}
-	for i, batch := range op.List[1:] {
+	for i, batch := range full {
 		out, err := unhx(outs[i])
 		if err != nil {
 			return []string{"bad output"}
